@@ -163,3 +163,124 @@ Proof. vm_compute. repeat split. Qed.
 (* a fast-generator instance with a repeated vertex inside one group and a zero-degree vertex *)
 Example C01_fast_valid : Valid [2;3] (singleton_mis 2) [[2;1];[0;0];[1;1];[1;1]].
 Proof. apply validb_Valid. vm_compute. reflexivity. Qed.
+
+(* ================================================================== Growth: the network variant *)
+(* audit-1 finding F2: Gen.v and Conv.v composed.  gen_network (Model/GenNet.v) = Conv.to_network applied
+   to the edge list of the fast generator, exactly as GCMAlgorithmNetwork.random_clustered_graph is
+   EdgeListToNetwork.convert(GCMAlgorithmFast(params).random_clustered_graph(jds)).
+   Proofs in Proofs/GenNetP.v; the C01 / C02 statements are transported through C04's
+   to_network_spec / final_attr_once / simple_edges_rows. *)
+From GV Require Import Model.Conv Model.GenNet Proofs.ConvP Proofs.ConvGenP Proofs.GenNetP.
+
+Theorem C01_network_is_composition : forall build sizes names mis jds pis cs ce cn ci,
+  gen_main 1 build sizes names mis jds pis = Ok (cs, (ce, cn, ci)) ->
+  gen_network build sizes (map (hd 0) names) jds pis = Ok (cs, to_network (mk_elist jds ce cn ci)).
+Proof. exact gen_network_of_main. Qed.
+Print Assumptions C01_network_is_composition.
+
+(* the network variant fails exactly when (and as) the fast generator fails *)
+Theorem C01_network_errors : forall build sizes nms jds pis e,
+  gen_network build sizes nms jds pis = Err e <-> gen_fast build sizes nms jds pis = Err e.
+Proof. exact gen_network_err. Qed.
+Print Assumptions C01_network_errors.
+
+(* Under the C01 hypotheses, for every callback family and every shuffle outcome of a run that returns
+   the network g: g is the conversion of the fast generator's list (ce, cn, ci), whose calls satisfy
+   Spec_C01 and whose columns satisfy Spec_C02 w.r.t. the callback results; and
+     - g has exactly the vertices 0..N-1, each once, vertex v annotated with jds[v];
+     - the edge set of g is the set of callback edges (unordered pairs, each once);
+     - a pair produced once carries that row's name and id;
+     - when the produced rows have no repeated unordered pair: g has one edge per row, in row order,
+       every row's pair carrying the row's name and id, and every edge of motif instance number d
+       (callback / topology j) carries (name of topology j, motif id d). *)
+Theorem C01_network_variant : forall build sizes names jds pis cs g,
+  Valid sizes (singleton_mis (ncols jds)) jds -> PisOk jds pis -> BuildClosed build ->
+  gen_network build sizes (map (hd 0) names) jds pis = Ok (cs, g) ->
+  exists ce cn ci results,
+    gen_fast build sizes (map (hd 0) names) jds pis = Ok (cs, (ce, cn, ci)) /\
+    g = to_network (mk_elist jds ce cn ci) /\
+    Spec_C01 sizes (singleton_mis (ncols jds)) jds (map flat_call cs) jds (Gen.endpoints ce) /\
+    Results build cs results /\
+    ce = concat (map (fun r => edges_of (snd r)) results) /\
+    Spec_C02 false names results ce cn ci /\
+    NoDup (map fst (n_nodes g)) /\
+    (forall v, In v (map fst (n_nodes g)) <-> v < length jds) /\
+    (forall v a, In (v, a) (n_nodes g) -> a = Some (nth v jds [])) /\
+    NoDup (map fst (n_edges g)) /\
+    (forall e, In e (map fst (n_edges g)) <->
+       (norm e = e /\ exists d r e0, nth_error results d = Some r /\ In e0 (edges_of (snd r)) /\ norm e0 = e)) /\
+    (forall e a r, In (e, a) (n_edges g) -> occurrences (mk_elist jds ce cn ci) e = [r] -> a = Some r) /\
+    (NoDup (map norm ce) ->
+       n_edges g = map (fun r => (norm (fst r), Some (snd r))) (rows (mk_elist jds ce cn ci)) /\
+       length (n_edges g) = length ce /\
+       (forall x, In x (zip3 ce cn ci) -> In (norm (r_edge x), Some (r_name x, r_id x)) (n_edges g)) /\
+       (forall d j sh e, nth_error results d = Some (j, sh) -> In e (edges_of sh) ->
+          In (norm e, Some (hd 0 (nth j names []), d)) (n_edges g))).
+Proof. exact gen_network_C01. Qed.
+Print Assumptions C01_network_variant.
+
+(* ... and NetworkToEdgeList on the generated network always succeeds (repeated pairs or not), returns
+   jds and one row per generated unordered pair (C04's general round trip); without repeated pairs it
+   returns the generated list itself, each pair in normalised orientation *)
+Theorem C01_network_converts_back : forall build sizes names jds pis cs g,
+  Valid sizes (singleton_mis (ncols jds)) jds -> PisOk jds pis -> BuildClosed build ->
+  gen_network build sizes (map (hd 0) names) jds pis = Ok (cs, g) ->
+  exists ce cn ci el',
+    gen_fast build sizes (map (hd 0) names) jds pis = Ok (cs, (ce, cn, ci)) /\
+    to_edgelist g = Some el' /\ Spec_back (mk_elist jds ce cn ci) el' /\
+    (NoDup (map norm ce) -> el' = mk_elist jds (map norm ce) cn ci).
+Proof. exact gen_network_back. Qed.
+Print Assumptions C01_network_converts_back.
+
+Theorem C01_network_total : forall build sizes nms jds pis,
+  Valid sizes (singleton_mis (ncols jds)) jds -> PisOk jds pis ->
+  (forall c, In c (fst (plan_fast sizes jds pis)) ->
+     (exists es, build (fst c) (concat (snd c)) = Ok (Edges es)) /\ fst c < length nms) ->
+  exists out, gen_network build sizes nms jds pis = Ok out.
+Proof. exact gen_network_total. Qed.
+Print Assumptions C01_network_total.
+
+(* the extracted entry point the harness compares the real networkx graph with is gen_network on
+   the decoded input (definitional; stated so that the wire format is visible here) *)
+Theorem C01_net_run_is_gen_network : forall t,
+  c01_net_run t =
+  match gen_network (build_of_codes (t_nats (t_nth 3 t))) (t_nats (t_nth 2 t))
+                    (map (hd 0) (t_natss (t_nth 4 t))) (t_natss (t_nth 1 t)) (t_natss (t_nth 6 t)) with
+  | Err e => t_err e
+  | Ok (cs, g) => L [L (map (fun c => enc_call (flat_call c)) cs); enc_net g]
+  end.
+Proof. exact c01_net_run_unfold. Qed.
+Print Assumptions C01_net_run_is_gen_network.
+
+(* non-vacuity: a 2-clique topology and a 3-cycle topology, vertex 4 of joint degree zero, non-identity
+   shuffles; the callbacks return (1,0), (3,0), (0,2), (3,2): no unordered pair twice, three of them
+   stored in the other orientation; every edge carries (topology name, motif id) *)
+Example C01_network_nonvacuous :
+  let jds := [[1;1];[1;0];[0;1];[0;1];[0;0]] in
+  let pis := [[1;0];[2;0;1]] in
+  Valid [2;3] (singleton_mis (ncols jds)) jds /\ PisOk jds pis /\
+  gen_fast (build_of_codes [0;1]) [2;3] (map (hd 0) [[7];[8]]) jds pis =
+    Ok ([(0, [[1;0]]); (1, [[3;0;2]])], ([(1,0);(3,0);(0,2);(3,2)], [7;8;8;8], [0;1;1;1])) /\
+  NoDup (map norm [(1,0);(3,0);(0,2);(3,2)]) /\
+  gen_network (build_of_codes [0;1]) [2;3] (map (hd 0) [[7];[8]]) jds pis =
+    Ok ([(0, [[1;0]]); (1, [[3;0;2]])],
+        mk_net [(4, Some [0;0]); (1, Some [1;0]); (0, Some [1;1]); (3, Some [0;1]); (2, Some [0;1])]
+               [((0,1), Some (7,0)); ((0,3), Some (8,1)); ((0,2), Some (8,1)); ((2,3), Some (8,1))]).
+Proof.
+  intros jds pis. split; [apply validb_Valid; vm_compute; reflexivity|]. split.
+  { intros k Hk. change (ncols jds) with 2 in Hk. destruct k as [|[|k]]; [| |exfalso; inversion Hk as [|? H1]; inversion H1 as [|? H2]; inversion H2].
+    - vm_compute. apply perm_swap.
+    - vm_compute. apply perm_trans with [0;2;1]; [apply perm_swap|apply perm_skip, perm_swap]. }
+  split; [vm_compute; reflexivity|]. split; [|vm_compute; reflexivity].
+  apply nodupb_edge_NoDup. vm_compute. reflexivity.
+Qed.
+
+(* with a repeated pair the conversion keeps ONE edge and the back conversion still succeeds with jds *)
+Example C01_network_repeated_pair :
+  let jds := [[2];[2]] in
+  match gen_network (build_of_codes [0]) [2] [7] jds [[0;2;1;3]] with
+  | Ok (cs, g) => length cs = 2 /\ n_edges g = [((0,1), Some (7,1))] /\
+                  to_edgelist g = Some (mk_elist jds [(0,1)] [7] [1])
+  | Err _ => False
+  end.
+Proof. vm_compute. repeat split; reflexivity. Qed.
